@@ -311,6 +311,9 @@ func (p *cparser) unary() CExpr {
 	case p.accept("-"):
 		return &CUn{"-", p.unary()}
 	case p.accept("*"):
+		if p.isOp(")") {
+			return &CIdent{"*"} // count(*)
+		}
 		return &CUn{"*", p.unary()}
 	case p.accept("&"):
 		return &CUn{"&", p.unary()}
@@ -396,6 +399,9 @@ func (p *cparser) primary() CExpr {
 		}
 		return &CIdent{t.val}
 	case "op":
+		if t.val == "*" && p.isOp(")") {
+			return &CIdent{"*"}
+		}
 		if t.val == "(" {
 			e := p.expr()
 			p.expect(")")
